@@ -1,7 +1,7 @@
 (* C04 — schema evolution: unknown fields are skipped exactly, absent optionals take defaults. Statements only. *)
 From Coq Require Import List NArith ZArith.
 From TarsV Require Import Base.Hex Codec.Wire Codec.Skip Codec.SkipProofs Codec.Prim Codec.GenCodec Codec.Corr Codec.GenProofs
-  Codec.RoundTrip Codec.RoundTripProofs Codec.NestedProofs.
+  Codec.RoundTrip Codec.RoundTripProofs Codec.NestedProofs Codec.RoundTripExamples Gen.Schemas.
 Import ListNotations.
 Open Scope N_scope.
 
@@ -84,6 +84,13 @@ Theorem C04_extras_nested : forall e k n sid vs Js body Jl,
   decode e sid (body ++ ser_fields Jl) = DOk (norm_struct e sid (VStruct vs)) (ser_fields Jl)
   /\ decode e sid (encode e sid (VStruct vs)) = DOk (norm_struct e sid (VStruct vs)) [].
 Proof. exact NestedProofs.extras_nested. Qed.
+(* instantiated on the schemas regenerated from the tree *)
+Theorem C04_code_schemas_extras_nested : forall sid vs Js body Jl, tfin 8 env0 (TStruct sid) = true ->
+  has_type env0 (TStruct sid) (VStruct vs) ->
+  xfields env0 (fields_of env0 sid) vs Js body -> junks_ok None (fields_of env0 sid) Js -> trailing_ok (fields_of env0 sid) Jl ->
+  decode env0 sid (body ++ ser_fields Jl) = DOk (norm_struct env0 sid (VStruct vs)) (ser_fields Jl)
+  /\\ decode env0 sid (encode env0 sid (VStruct vs)) = DOk (norm_struct env0 sid (VStruct vs)) [].
+Proof. exact RoundTripExamples.env0_extras_nested. Qed.
 (* the same for any struct type (recursive ones included) and any admissible target, with the explicit fuel hypothesis *)
 Theorem C04_extras_nested_into : forall e k sid vs prior Js body tail,
   wf_schema k e -> has_type e (TStruct sid) (VStruct vs) -> zlike e (TStruct sid) prior ->
@@ -97,6 +104,7 @@ Print Assumptions C04_skip_exact.
 Print Assumptions C04_extras_ignored.
 Print Assumptions C04_extras_ignored_into.
 Print Assumptions C04_extras_nested.
+Print Assumptions C04_code_schemas_extras_nested.
 Print Assumptions C04_extras_nested_into.
 Print Assumptions C04_member_absent_required.
 Print Assumptions C04_required_absent.
